@@ -812,12 +812,64 @@ def make_list_call(kind, vals, form):
     return call, objs
 
 
+def index_lists(rng, nq, exhaustive=False):
+    """qubit-index lists for a `nq`-qubit noise: every length 0 .. nq+2; distinct (ascending, reversed, rotated, offset, shuffled),
+    with repetitions (constant; one entry repeated; LONGER than nq with exactly nq distinct entries in several arrangements;
+    SHORTER/EQUAL with fewer distinct entries).  exhaustive: all lists over {0..nq} up to length nq+2 (nq = 2 only: 121 lists)."""
+    import itertools
+
+    out = []
+
+    def put(l):
+        l = [int(x) for x in l]
+        if l not in out:
+            out.append(l)
+
+    for L in range(0, nq + 3):
+        base = list(range(L))
+        put(base)
+        put(base[::-1])
+        put(base[1:] + base[:1])
+        put([x + 1 for x in base])
+        sh = base[:]
+        rng.shuffle(sh)
+        put(sh)
+        if L >= 2:
+            put([1] * L)
+            put(base[:-1] + [base[-2]])          # last entry repeats its neighbour: L-1 distinct
+            put([base[0]] + base[:-1])           # first entry repeated
+        if L > nq:
+            core = list(range(nq))
+            put(core + [core[-1]] * (L - nq))     # [0,1,1], [0,1,1,1], [0,1,2,2] …: exactly nq distinct, too long
+            put((core[::-1] * L)[:L])             # [1,0,1], [1,0,1,0] …
+            put([core[0]] * (L - nq) + core)
+            mixed = core + [rng.choice(core) for _ in range(L - nq)]
+            rng.shuffle(mixed)
+            put(mixed)
+            put([x + 1 for x in core] + [core[0] + 1] * (L - nq))
+    if exhaustive and nq == 2:
+        for L in range(0, nq + 3):
+            for t in itertools.product(range(nq + 1), repeat=L):
+                put(t)
+    return out
+
+
 def list_valid(kind, meta):
     """independent reading of the documented conditions of the list factories (shape / range side only);
     None = too close to the eq_tolerance boundary to judge without reproducing the float sum"""
     def filt_ok(nq):
-        k = len(meta["qubit_indices"])
-        return k == 0 or nq <= 1 or k == nq
+        """the documented rule (docstring + error text of `_check_valid_qubit_indices`): for a multi-qubit noise the filter is empty or
+        has exactly `qubit_count` entries ("without excess or deficiency", "a list of length qubit_count (exact match)"); for a
+        single-qubit noise any list.  A list of the right length with a REPEATED entry (e.g. [1, 1]) is accepted by the unchanged tree
+        although it cannot name `qubit_count` qubits: the documents do not settle it, so neither accepting nor rejecting it is judged
+        (None); the model correspondence still pins the unchanged behaviour."""
+        qi = list(meta["qubit_indices"])
+        k = len(qi)
+        if k == 0 or nq <= 1:
+            return True
+        if k != nq:
+            return False
+        return True if len(set(qi)) == k else None
 
     def probs_ok(ps, tol):
         if not ps or not all(O.is_prob(p) for p in ps):
@@ -970,6 +1022,18 @@ def run_lists(ctx: Ctx, info):
         add_kraus(ms, idx, fixed=True)
     add_kraus([Xm], [0], tg=["X"], fixed=True)
     add_kraus([I4], [1, 0], tg=["H", "CNOT"], fixed=True)
+    # --- qubit filters of the multi-qubit factories, systematically: every length 0 .. qubit_count+2, ascending / permuted, and with
+    #     repetitions (all equal; one repeated entry; too long with exactly qubit_count DISTINCT entries, e.g. [0,1,1], [1,0,1,0])
+    for nq in (2, 3):
+        lists = index_lists(rng, nq, exhaustive=not ctx.quick())
+        ctx.count("index-lists", f"nq={nq}", len(lists))
+        perm_m = dy_matrix(rng, 2 ** nq, "perm")
+        ident_m = [[1.0 if i == j else 0.0 for j in range(2 ** nq)] for i in range(2 ** nq)]
+        for idx in lists:
+            add_pauli([[1, 3, 2][:nq]], [0.25], idx, fixed=True)
+            add_gdepol(0.25, nq, idx, fixed=True)
+            add_prob([perm_m], [0.25], idx, fixed=True)
+            add_kraus([ident_m], idx, fixed=True)
     # --- PauliNoise
     for i in range(R):
         nq = rng.choice([1, 1, 2, 3])
@@ -1123,7 +1187,7 @@ def run_lists(ctx: Ctx, info):
         k = val.qubit_count
         if probs and sum(F(p) for p in probs) > 1 + F(1, 10 ** 7):
             continue  # a user-chosen large eq_tolerance: outside what Qulacs' Probabilistic accepts (documented tolerance is a rounding allowance)
-        if 1 <= k <= 3 and sims < ctx.n(60, 600):
+        if 1 <= k <= 3 and sims < ctx.n(100, 800):
             sims += 1
             bad = check_simulation(ctx, meta["factory"], pub, val, k)
             if bad:
